@@ -23,7 +23,8 @@ def _op(draw, dim):
     if op == "translate":
         c["vec"] = [draw(st.integers(-64, 64)) / 8.0 for _ in range(dim)]
     elif op == "rotate":
-        c["angle"] = draw(st.one_of(st.integers(-48, 48).map(lambda k: 15.0 * k), st.integers(-720 * 8, 720 * 8).map(lambda k: k / 8.0)))
+        c["angle"] = draw(st.one_of(st.integers(-48, 48).map(lambda k: 15.0 * k), st.integers(-720 * 8, 720 * 8).map(lambda k: k / 8.0),
+                                    st.sampled_from([36000.0, 36030.0, -71955.0, 25215.0, 1080000.0 + 90.0])))          # many whole turns are angles too
         c["axis"] = draw(st.integers(0, 2))
         c["partial"] = draw(st.booleans())
     elif op == "scale":
